@@ -477,7 +477,7 @@ def run(ctx):
     if ctx.tier == "quick":
         run_n(ctx, 75, 5)
     else:
-        run_n(ctx, 400, 10)
+        run_n(ctx, 360, 10)
 
 
 def replay(ctx, doc):
